@@ -731,7 +731,7 @@ class FlowFlowLabel(IOperationByteShortLong, NumericString, FlowIPv6):
 FLOW_LENGTH_EXTENDED_MASK: int = 0xF0  # Mask for extended length (upper 4 bits)
 FLOW_LENGTH_EXTENDED_VALUE: int = 0xF0  # Value indicating extended length (240)
 FLOW_LENGTH_LOWER_MASK: int = 0x0F  # Mask for lower 4 bits in extended length
-FLOW_LENGTH_EXTENDED_SHIFT: int = 16  # Shift for extended length calculation
+FLOW_LENGTH_EXTENDED_SHIFT: int = 8  # the lower 4 bits are the high-order bits of a 12-bit length
 FLOW_LENGTH_COMPACT_MAX: int = 0xF0  # Maximum length for compact encoding (240)
 FLOW_LENGTH_EXTENDED_MAX: int = 0x0FFF  # Maximum length for extended encoding (4095)
 
